@@ -34,7 +34,7 @@ class F(Core.Component):
 
 
 TYPES = {'X': X, 'Y': Y, 'Z': Z, 'F': F}
-CLASSES = ['Agent', 'A', 'A1', 'B', 'Environment', 'E', 'H']
+CLASSES = ['Agent', 'A', 'A1', 'B', 'Environment', 'E', 'H', 'R', 'R1']
 
 META = {
     'rule': 'BFS over class-level histories on a fresh hierarchy; full read-back of every class and instance creation '
@@ -59,7 +59,7 @@ class World:
 
 class Harness:
     def __init__(self, op_classes=None, op_types=('X', 'Y'), subclassing=True, extras=False):
-        self.op_classes = list(op_classes or CLASSES)
+        self.op_classes = list(op_classes or [c for c in CLASSES if c not in ('R', 'H')])      # R, H: checked, not operated on
         self.op_types = list(op_types)
         self.subclassing = subclassing
         self.extras = extras      # components owned by a second model, the first model finishing, cloned classes
@@ -105,8 +105,19 @@ class Harness:
                 self.inner = Core.Model()
                 super().__init__(id, model, tag)
 
+        registry = []
+
+        class R(Core.Agent):
+            """A class that keeps a registry of its subclasses - without handing on to super().__init_subclass__()."""
+
+            def __init_subclass__(cls, **kw):
+                registry.append(cls)
+
+        class R1(R):
+            pass
+
         w.cls = {'Agent': Core.Agent, 'A': A, 'A1': A1, 'B': B, 'Environment': Core.Environment, 'E': E, 'H': H,
-                 'SpaceWorld': Envs.SpaceWorld}
+                 'R': R, 'R1': R1, 'SpaceWorld': Envs.SpaceWorld}
         # the model already has inhabitants, and its environment carries a tag of its own
         w.model.environment.add_agent(Core.Agent('resident', w.model))
         w.model.environment.tag = 2
